@@ -14,6 +14,7 @@ import (
 	"fmt"
 	"math/rand"
 	"os"
+	"time"
 
 	"github.com/google/gopacket"
 	"github.com/v-byte-cpu/sx/command"
@@ -262,10 +263,23 @@ func main() {
 	maxpl := flag.Int("maxpayload", 1472, "largest payload length of the regular sweep")
 	replay := flag.String("replay", "", "replay the case stored in this JSON file (field \"input\")")
 	huge := flag.Bool("huge", false, "include payloads around and beyond 65507 bytes")
+	capIface := flag.String("capture", "", "capture mode: record frames seen on this interface")
+	capCount := flag.Int("count", 16, "capture mode: stop after this many frames")
+	capTimeout := flag.Duration("timeout", 3*time.Second, "capture mode: stop after this time")
+	capTun := flag.String("tun", "", "capture mode: attach to this tun device and record the packets sent through it")
+	capSrc := flag.String("srcmac", "", "capture mode: keep only frames with this Ethernet source (hex)")
 	hunt := flag.Int("hunt", 0, "failing-input search: extra Fill calls per builder whose spoofed fields are range-checked")
 	flag.Parse()
 	w := hlib.NewOut(*out)
 	defer w.Close()
+	if *capTun != "" {
+		captureTun(*capTun, w, *capCount, *capTimeout)
+		return
+	}
+	if *capIface != "" {
+		capture(*capIface, w, *capCount, *capTimeout, unhex(*capSrc))
+		return
+	}
 	if *replay != "" {
 		raw, err := os.ReadFile(*replay)
 		if err != nil {
